@@ -29,6 +29,7 @@ GenNext ==
   \/ \E r \in Req :
        \/ \E k \in Keys, d \in Disp, m \in Methods :
             Start(r, k, d, m) /\ Log([a |-> "Start", p |-> r, k |-> k, d |-> d, m |-> m])
+       \/ ClientGone(r) /\ Log([a |-> "ClientGone", p |-> r])
        \/ Lookup(r) /\ Log([a |-> "Lookup", p |-> r])
        \/ GetBegin(r) /\ Log([a |-> "GetBegin", p |-> r])
        \/ \E res \in LoadChoices : GetStep(r, res) /\ Log([a |-> "GetStep", p |-> r, res |-> res])
